@@ -13,6 +13,10 @@ from lian.common_structs import CallSite, CallPath, PathManager, PathTrie
 A, B, C = CallSite(1, 2, 3), CallSite(3, 4, 5), CallSite(5, 6, 7)
 BAD = CallSite(7, -1, 9)
 UNIVERSE = [CallPath(()), CallPath((A,)), CallPath((A, B)), CallPath((A, B, C)), CallPath((A, C)), CallPath((B,)), CallPath((B, A)), CallPath((A, BAD)), ]
+N_BASE = len(UNIVERSE)
+# call paths of recursive programs: the same call site at several positions (a path's last call site also occurring earlier)
+UNIVERSE += [CallPath((A, A)), CallPath((A, B, A)), CallPath((A, A, A)), CallPath((A, B, C, B))]
+RECURSIVE_FAMILY = [1, 2, 3, N_BASE, N_BASE + 1, N_BASE + 2, N_BASE + 3]          # [A] [A,B] [A,B,C] [A,A] [A,B,A] [A,A,A] [A,B,C,B]
 NAMES = {id(A): 'A', id(B): 'B', id(C): 'C', id(BAD): 'X'}
 
 
@@ -88,9 +92,11 @@ def run_sequence(ops):
 def enumerate_sequences(depth, limit_witnesses=3):
     wit = []
     cases = 0
-    alphabet = [('add', k) for k in range(len(UNIVERSE))] + [('remove', k) for k in range(len(UNIVERSE) - 1)]
+    alphabet = [('add', k) for k in range(N_BASE)] + [('remove', k) for k in range(N_BASE - 1)]
+    rec_alphabet = [('add', k) for k in RECURSIVE_FAMILY] + [('remove', k) for k in RECURSIVE_FAMILY]
     for n in range(1, depth + 1):
-        for ops in itertools.product(alphabet, repeat=n):
+        seqs = itertools.chain(itertools.product(alphabet, repeat=n), itertools.product(rec_alphabet, repeat=n) if n <= 4 else [])
+        for ops in seqs:
             # prune: a removal of a path never added before is covered at smaller depth only once per position; keep everything up to depth 4
             if n > 4 and not useful(ops):
                 continue
@@ -110,7 +116,7 @@ def useful(ops):
     """beyond depth 4 only sequences that stay within one prefix family (paths through A) and remove only what was added"""
     added = set()
     for op, k in ops:
-        if k in (4, 5):
+        if k in (4, 5) or k >= N_BASE:
             return False
         if op == 'remove' and k not in added:
             return False
@@ -121,7 +127,7 @@ def useful(ops):
 
 def search(target, models):
     wit, cases = enumerate_sequences(4)
-    return dict(witnesses=wit, searched=f'{cases} add/remove sequences of length <= 4 over {len(UNIVERSE)} paths (incl. one with an invalid call site)',
+    return dict(witnesses=wit, searched=f'{cases} add/remove sequences of length <= 4 over {N_BASE} paths (incl. one with an invalid call site) and over the {len(RECURSIVE_FAMILY)} paths of a recursive family (repeated call sites)',
                 how='real PathManager vs the abstract contract + concrete trie representation invariant after every operation')
 
 
@@ -137,6 +143,6 @@ if __name__ == '__main__':
         wit, cases = enumerate_sequences(depth)
         common.emit(dict(witnesses=wit, cases=cases,
                          bound=f'all add/remove sequences of length <= 4, and all prefix-family sequences of length <= {depth}, over a universe of '
-                               f'{len(UNIVERSE)} paths of length <= 3 built from 3 valid call sites + 1 invalid'))
+                               f'{N_BASE} paths of length <= 3 built from 3 valid call sites + 1 invalid; all sequences of length <= 4 over {len(RECURSIVE_FAMILY)} paths with repeated call sites'))
         sys.exit(1 if wit else 0)
     common.main(search, replay)
